@@ -1,6 +1,7 @@
 package btchecks
 
 import (
+	"time"
 	"fmt"
 	"strings"
 	"testing"
@@ -175,6 +176,11 @@ func runC16(c C16Case, ev *vt.Ev) *vt.Failure {
 		collect = false
 	case "aged":
 		s.Exec(&bt.Op{K: "GC", AgeMin: 6})
+	case "loop":
+		// the server's own background loop (a pass every 15-60 s over tables without recent activity), not the
+		// guarded entry point: the tables are made to look idle, then the harness just waits for the next pass
+		bttest.VerifAgeActivity(s.S, 7*time.Minute)
+		time.Sleep(61500 * time.Millisecond)
 	}
 	if collect {
 		mt.GC(c.Now)
@@ -224,6 +230,17 @@ func runC16(c C16Case, ev *vt.Ev) *vt.Failure {
 	}
 	ev.Case(c, partial || (c.Mode != "force" && before > 0), labels...)
 	return nil
+}
+
+func TestC16Loop(t *testing.T) {
+	g := rapid.Custom(func(t *rapid.T) C16Case {
+		c := genC16().Draw(t, "case")
+		c.Mode = "loop"
+		return c
+	})
+	vt.Prop[C16Case]{ID: "C16", Test: "TestC16Loop",
+		Rule: "the same generated tables, but the pass is the one the server's own background loop makes: the server runs on an injected clock 56 years behind the wall clock, the tables' activity stamps are aged by 7 minutes through a hook, the harness sleeps 61.5 s (the loop runs every 15-60 s) and then compares both tables with the GC evaluator at the SERVER's clock; one case per shard in the quick tier; non-trivial as in TestC16",
+		Gen:  g, Run: runC16}.Main(t)
 }
 
 func TestC16(t *testing.T) {
